@@ -270,6 +270,18 @@ func (rn *runner) corpus() {
 		rn.do(op{Kind: kBlock, Dt: time.Unix(0, first).Sub(h.Time)}, "corpus:subsecond")
 		rn.do(op{Kind: kBlock, Dt: 2 * time.Second}, "corpus:subsecond")
 	}
+	// run past every completion, then the delegator left on validator 2 takes the rest out
+	if q := rn.w.dump(h.Ctx()).Queue; len(q) > 0 {
+		last := q[0].Time
+		for _, e := range q {
+			if e.Time > last {
+				last = e.Time
+			}
+		}
+		rn.do(op{Kind: kBlock, Dt: time.Unix(0, last).Sub(h.Time) + time.Second}, "corpus:completion")
+	}
+	rn.do(op{Kind: kUndelegate, U: 0, V: 2, Amt: bi(600_000), Rcp: -3}, "corpus:overdraw")
+	rn.do(op{Kind: kBlock, Dt: 1300 * ms}, "corpus:overdraw")
 }
 
 // corpusZeroSaver: a delegator joins (or returns) while the reward saver holds exactly nothing of
@@ -340,6 +352,24 @@ func (rn *runner) corpusGeneration() {
 	rn.do(op{Kind: kBlock, Dt: 1300 * ms}, tag)
 	rn.do(op{Kind: kClaim, U: 3, V: 1}, tag)
 	rn.do(op{Kind: kClaim, U: 0, V: 1}, tag)
+	rn.corpusOverdraw()
+}
+
+// corpusOverdraw: undelegations of more than the sender's shares are worth, with another
+// delegator on the same validator (validator 2: u0 and u3 hold 10^6 shares each against
+// 2*10^6 staked): almost twice the value, the value plus one, a non-holder asking for a part
+// and for the whole of the pooled delegation; then exactly the value; then the remaining
+// delegator: value plus dust, a part. corpus() ends by running past every completion and the
+// remaining delegator's exit.
+func (rn *runner) corpusOverdraw() {
+	tag := "corpus:overdraw"
+	rn.do(op{Kind: kUndelegate, U: 3, V: 2, Amt: bi(1_900_000), Rcp: -3}, tag)
+	rn.do(op{Kind: kUndelegate, U: 3, V: 2, Amt: bi(1_000_001), Rcp: -3}, tag)
+	rn.do(op{Kind: kUndelegate, U: funder, V: 2, Amt: bi(100_000), Rcp: -3}, tag)
+	rn.do(op{Kind: kUndelegate, U: funder, V: 2, Amt: bi(2_000_000), Rcp: -3}, tag)
+	rn.do(op{Kind: kUndelegate, U: 3, V: 2, Amt: bi(1_000_000), Rcp: -3}, tag) // exactly the value
+	rn.do(op{Kind: kUndelegate, U: 0, V: 2, Amt: bi(1_000_003), Rcp: -3}, tag) // value plus dust
+	rn.do(op{Kind: kUndelegate, U: 0, V: 2, Amt: bi(400_000), Rcp: 3}, tag)
 }
 
 // Run generates n cases from seed, runs them on the real application and writes
